@@ -767,6 +767,8 @@ func runC18(p *Prog, r *Report) {
 		return
 	}
 	tn := "cbreaker.CircuitBreaker"
+	// ---- R6: the status the breaker records is the final status the writer saw (shared with C20.R3, recording writer) ----
+	r.Borrow(p, c20Wrappers, map[string]string{"C20.R3": "C18.R6"}, func(o Ob) bool { return strings.Contains(o.Construct, "ProxyWriter") })
 	// ---- R5: the recorded responses are the ones the condition sees: no update of the metrics is lost (shared with C09.R1) ----
 	if rt := p.Named("memmetrics", "RTMetrics"); rt != nil {
 		n := c09Races(p, r, "C18.R5", []*types.Named{rt})
